@@ -417,11 +417,14 @@ def stack_capacity(ctx, fn, t, F):
             best = None
             for n, anc2 in hir.walk(loop):
                 if n.get("k") == "If" and hir.diverges(n["then"]):
-                    cnd = hir.canon(sym(n["cond"]))
-                    txt = hir.fmt(cnd, 80)
-                    m = re.match(r"\(Game::len\(\w+\) >= (\d+)\)$", txt) or re.match(r"\((\d+) <= Game::len\(\w+\)\)$", txt)
-                    if m and hir.raw_line(n) > hir.raw_line(c):
-                        best = int(m.group(1))
+                    cnd = hir.canon(hir.resolve_consts(sym(n["cond"]), F))
+                    lim = None
+                    if cnd[0] == "bin" and cnd[1] in ("<=", "<") and cnd[2][0] == "lit" and cnd[3][0] == "call" and cnd[3][1] == "chess::Game::len":
+                        lim = cnd[2][1] + (1 if cnd[1] == "<" else 0)       # N <= len  /  N < len
+                    if cnd[0] == "bin" and cnd[1] == "==" and cnd[3][0] == "lit" and cnd[2][0] == "call" and cnd[2][1] == "chess::Game::len":
+                        lim = cnd[3][1]                                       # len == N (len grows by one per iteration)
+                    if lim is not None and hir.raw_line(n) > hir.raw_line(c):
+                        best = int(lim)
             guards[p] = best if best is not None else "UNGUARDED"
     found["growth loops (guard)"] = guards
     unguarded = [p for p, gv in guards.items() if gv == "UNGUARDED"]
